@@ -24,12 +24,12 @@ def keyOf : List (Nat × J) → Option J
   | (0, v) :: _ => some v
   | _ => none
 
-/-- `old["__key"] != new["__key"]` negated: Go interface equality of the two lookups; a missing
-key reads as `nil`.  Only scalars and `nil` are comparable (`WF` excludes the rest: Go panics). -/
-def keyEq (a b : Option J) : Bool :=
-  match a.getD .null, b.getD .null with
-  | .sc a, .sc b => a == b
-  | .null, .null => true
+/-- the `__key` comparison of `diffMap`: both absent, or both present and equal as Go interface
+values (scalars and `nil`; `WF` excludes non-comparable keys, on which Go panics) -/
+def keyEq : Option J → Option J → Bool
+  | none, none => true
+  | some (.sc a), some (.sc b) => a == b
+  | some .null, some .null => true
   | _, _ => false
 
 def diffKvs (d : J → J → Option J) : List (Nat × J) → List (Nat × J) → List (Nat × J)
